@@ -27,6 +27,7 @@ PY
 )
     if [ -n "$cmd" ]; then ( eval "$cmd" ) >/dev/null 2>&1; fi
     [ -x SEED/demo ] || [ -x demo ] || gcc -I$W/src -I$W -o SEED/demo SEED/demo.c $W/src/.libs/libvna.a -lyaml -lm 2>/dev/null || return 1
+    if [ -x SEED/demo ] && grep -q '"SEED/' SEED/demo.c; then ( ./SEED/demo >/dev/null 2>&1 ); return $?; fi
     if [ -x SEED/demo ]; then ( cd SEED && ./demo >/dev/null 2>&1 ); return $?; fi
     ( ./demo >/dev/null 2>&1 ); return $?
   else
